@@ -16,7 +16,8 @@ CONSTANT Deep       \* thorough tier: more base documents
 QuickBases ==
   [b1 |-> <<"info", "srv", "tag1", "tag2", "t1", "t3", "e1", "urlAI", "tagged", "rpc">>,
    b2 |-> <<"mac", "t1", "t2", "urlA", "getB", "useM", "bodyT">>,        \* a MACRO definition first (JSIGHT must precede it too)
-   b3 |-> <<"tag1", "tag2", "urlT", "tagrep", "t1", "e1", "urlTT", "respB">>]
+   b3 |-> <<"tag1", "tag2", "urlT", "tagrep", "t1", "e1", "urlTT", "respB">>,
+   b4 |-> <<"useMT", "t1", "macT", "urlS1", "urlS2", "respSameJ">>]      \* a root-level PASTE first, its macro defined later
 DeepBases ==
   [b4 |-> <<"infoV", "srv2", "t1", "reqT", "tAny", "e1", "t4", "pathM">>,
    b5 |-> <<"tag1", "mac", "mac2", "tag2", "rpc", "e1", "enumQ">>,
@@ -51,7 +52,7 @@ Faults(b) ==
   \cup {F("second", InsertAt(doc, i, <<doc[i]>>), IF doc[i].k = "BaseUrl" THEN "baseurlonce" ELSE IF doc[i].k = "OperationId" THEN "dupopid" ELSE "notunique", i + 1, "kw", 0)
           : i \in {x \in 1..n : doc[x].t = "D" /\ doc[x].k \in DL}}
   \cup {F("dupblock", doc \o BlockTab[bs[x]], DupCls(BlockTab[bs[x]][1].k), n + 1, "kw", Len(BlockTab[bs[x]]))
-          : x \in {y \in 1..Len(bs) : bs[y] \notin {"useM", "urlT", "rpc"}}}
+          : x \in {y \in 1..Len(bs) : bs[y] \notin {"useM", "urlT", "rpc", "useMT"}}}
   \cup {F("undeftype", [doc EXCEPT ![i].p = <<"@nope">>], "typenotfound", i, "kw", 0) : i \in {x \in 1..n : doc[x].k = "RESP" /\ doc[x].p = <<"any">>}}
   \cup {F("undeftype-body", [doc EXCEPT ![i].b = "refu"], "typenotfound", i, "body", 0) : i \in {x \in 1..n : doc[x].k \in {"Headers", "Query", "Params"}}}
   \cup {F("undeftag", [doc EXCEPT ![i].p = <<"@nope">>], "tagnotfound", i, "kw", 0) : i \in {x \in 1..n : doc[x].k = "Tags"}}
